@@ -1,15 +1,15 @@
 CONSTANTS
-  CodeKeys = TRUE
+  CodeKeys = FALSE
   HasFV = TRUE
   HasImages = TRUE
   StoreFailed = FALSE
-  PosKeyMode = "abs"
+  PosKeyMode = "rel"
   IdxKeyMode = "abs"
-  MaxDepth = 3
-  MaxDepthDmg = 2
+  MaxDepth = 1
+  MaxDepthDmg = 1
   MaxDepthCollide = 2
-  Families = {"intact", "dmg", "collide"}
+  Families = {"collide"}
 SPECIFICATION Spec
 VIEW View
-INVARIANTS ModelExact EmitCase
+INVARIANTS EmitCase
 CHECK_DEADLOCK FALSE
